@@ -54,13 +54,29 @@ func TestC06(t *testing.T) {
 	})
 
 	// part 2: crash images
+	// a quarter of the crash histories runs on a small bounded file with fill-until-error / drain / ACK
+	// cycles: failed flushes, ACK transactions that need the overflow area and release it again
+	full := harness.QGenParams{MaxBlocks: 2, Bounded: true, MinPages: 16, MaxPages: 64, FillCycles: true}
+	if th {
+		full.MaxBlocks = 4
+	}
 	checkQueueRec(t, rec, "C06", func(rt *rapid.T) *harness.QProgram {
-		p := harness.GenQProgram(rt, params)
+		var p *harness.QProgram
+		imgCap := uint64(0)
+		if rapid.IntRange(0, 5).Draw(rt, "fullFile") == 0 {
+			p = harness.GenQFillProgram(rt, full)
+			imgCap = 2500 // these histories are I/O heavy (hundreds of events)
+			if th {
+				imgCap = 8000
+			}
+		} else {
+			p = harness.GenQProgram(rt, params)
+		}
 		thr := uint64(0)
 		if th {
 			thr = 1
 		}
-		p.Aux = []uint64{0, rapid.Uint64().Draw(rt, "crashseed"), thr}
+		p.Aux = []uint64{0, rapid.Uint64().Draw(rt, "crashseed"), thr, imgCap}
 		return p
 	}, func(p *harness.QProgram) Result { return RunC06(p, th) })
 	completed = true
